@@ -13,6 +13,7 @@ import PyttbModel.Lemmas.CpAlsRun
 import PyttbModel.Lemmas.CpAlsKnorm
 import Mathlib.Algebra.Order.Ring.Abs
 import Mathlib.Algebra.BigOperators.Group.List.Lemmas
+import Mathlib.Algebra.Order.BigOperators.GroupWithZero.List
 
 set_option linter.unusedSectionVars false
 set_option linter.unusedSimpArgs false
@@ -183,5 +184,684 @@ theorem ColScaled.comp_set {d : Nat → Nat → α} {U U' : List (Mat α)} (h : 
   rw [prod_map_ite_ne]
 
 end colscaled
+
+/-! ## 3. an entry of `mttkrp` is an inner product (from the interface laws); its scaling -/
+
+section mttkrp
+variable {α : Type} [Field α]
+
+/-- the `r`-th unit weight vector of length `R` -/
+def unitW (R r : Nat) : List α := (List.range R).map fun a => if a = r then 1 else 0
+
+/-- the `I × R` matrix with a single one at `(i, r)` -/
+def unitMat (I R i r : Nat) : Mat α := tab I R fun i' r' => if i' = i ∧ r' = r then 1 else 0
+
+theorem length_unitW (R r : Nat) : (unitW R r : List α).length = R := by simp [unitW]
+
+theorem unitW_getD (R r a : Nat) (ha : a < R) : (unitW R r : List α).getD a 0 = if a = r then 1 else 0 := by
+  simp [unitW, List.getD_eq_getElem?_getD, ha]
+
+theorem ktensor_get_unit (R r : Nat) (hr : r < R) (V : List (Mat α)) (j : List Nat) :
+    Ktensor.get ⟨unitW R r, V⟩ j = compOf V r j := by
+  rw [ktensor_get_eq, length_unitW, Finset.sum_eq_single r]
+  · rw [unitW_getD R r r hr, if_pos rfl, one_mul]
+  · intro a ha hne
+    rw [unitW_getD R r a (Finset.mem_range.1 ha), if_neg hne, zero_mul]
+  · intro h; exact absurd (Finset.mem_range.2 hr) h
+
+/-- An in-range entry of `mttkrp(X, U, n)` is the inner product of `X` with the rank-one array
+whose mode-`n` vector is the `i`-th unit vector and whose other vectors are the `r`-th columns of
+the other factors — a consequence of the two interface laws of `DataLaws`. -/
+theorem mttkrp_entry {D : Data α} {X : List Nat → α} (hD : DataLaws D X) {R : Nat} {U : List (Mat α)}
+    (hU : ShapeOK D.shape R U) {n i r : Nat} (hn : n < D.shape.length) (hi : i < D.shape.getD n 0)
+    (hr : r < R) :
+    (D.mttkrp U n).get i r =
+      ip D.shape X (fun j => compOf (U.set n (unitMat (D.shape.getD n 0) R i r)) r j) := by
+  have hshape : ShapeOK D.shape (unitW R r : List α).length (U.set n (unitMat (D.shape.getD n 0) R i r)) := by
+    rw [length_unitW]; exact hU.set n _ (isMat_tab _ _ _)
+  have law := hD.mttkrp_law (unitW R r) (U.set n (unitMat (D.shape.getD n 0) R i r)) n hn hshape
+  have hfun : Ktensor.get ⟨(unitW R r : List α), U.set n (unitMat (D.shape.getD n 0) R i r)⟩ =
+      fun j => compOf (U.set n (unitMat (D.shape.getD n 0) R i r)) r j := by
+    funext j; exact ktensor_get_unit R r hr _ j
+  rw [hfun] at law
+  rw [law, length_unitW, hD.mttkrp_indep, getD_set_eq _ _ _ _ (by rw [hU.1]; exact hn)]
+  simp only [sumRange_eq]
+  rw [Finset.sum_eq_single r]
+  · rw [Finset.sum_eq_single i]
+    · rw [unitW_getD R r r hr, if_pos rfl, one_mul, unitMat, get_tab _ _ _ hi hr, if_pos ⟨rfl, rfl⟩, mul_one]
+    · intro i' hi' hne
+      rw [unitMat, get_tab _ _ _ (Finset.mem_range.1 hi') hr, if_neg (fun h => hne h.1), mul_zero, mul_zero]
+    · intro h; exact absurd (Finset.mem_range.2 hi) h
+  · intro a ha hne
+    rw [unitW_getD R r a (Finset.mem_range.1 ha), if_neg hne]
+    simp
+  · intro h; exact absurd (Finset.mem_range.2 hr) h
+
+theorem ip_congr (s : List Nat) (X f g : List Nat → α) (h : ∀ j, j.length = s.length → f j = g j) :
+    ip s X f = ip s X g := by
+  unfold ip
+  congr 1
+  refine List.map_congr_left fun j hj => ?_
+  rw [h j (mem_allSubs.1 hj).length_eq]
+
+theorem ip_smul_left (s : List Nat) (X f : List Nat → α) (c : α) :
+    ip s (fun j => c * X j) f = c * ip s X f := by
+  unfold ip
+  rw [← List.sum_map_mul_left]
+  congr 1
+  refine List.map_congr_left fun j _ => ?_
+  ring
+
+theorem ip_smul_right (s : List Nat) (X f : List Nat → α) (c : α) :
+    ip s X (fun j => c * f j) = c * ip s X f := by
+  unfold ip
+  rw [← List.sum_map_mul_left]
+  congr 1
+  refine List.map_congr_left fun j _ => ?_
+  ring
+
+/-- `mttkrp` for the data scaled by `c`, on factors whose columns are scaled by `d`: entry `(i, r)`
+is `c · ∏_{m≠n} d m r` times the original entry. -/
+theorem mttkrp_scaled {D D' : Data α} {X : List Nat → α} {c : α} (hD : DataLaws D X)
+    (hD' : DataLaws D' (fun j => c * X j)) (hs : D'.shape = D.shape) {R : Nat} {U U' : List (Mat α)}
+    (hU : ShapeOK D.shape R U) (hU' : ShapeOK D.shape R U') {d : Nat → Nat → α} (hd : ColScaled d U U')
+    {n i r : Nat} (hn : n < D.shape.length) (hi : i < D.shape.getD n 0) (hr : r < R) :
+    (D'.mttkrp U' n).get i r = c * dOther d D.shape.length n r * (D.mttkrp U n).get i r := by
+  rw [mttkrp_entry hD hU hn hi hr, mttkrp_entry hD' (by rw [hs]; exact hU') (by rw [hs]; exact hn)
+    (by rw [hs]; exact hi) hr, hs, ip_smul_left]
+  have hl : U'.length = U.length := by rw [hU.1, hU'.1]
+  rw [ip_congr D.shape X _ (fun j => dOther d D.shape.length n r *
+      compOf (U.set n (unitMat (D.shape.getD n 0) R i r)) r j) (fun j hj => by
+    rw [hd.comp_set hl n _ j (by rw [hj, hU.1]) r, hU.1, mul_comm])]
+  rw [ip_smul_right]
+  ring
+
+end mttkrp
+
+/-! ## 4. the coefficient matrix, the all-zero guard, the solve -/
+
+section solve
+variable {α : Type} [Field α] [LinearOrder α] [IsStrictOrderedRing α]
+
+theorem gram_get (A : Mat α) (R : Nat) {a b : Nat} (ha : a < R) (hb : b < R) :
+    (gram A R).get a b = sumRange A.length fun i => A.get i a * A.get i b := by
+  rw [gram, get_tab _ _ _ ha hb]
+
+theorem coef_get (UtU : List (Mat α)) (N R n : Nat) {a b : Nat} (ha : a < R) (hb : b < R) :
+    (coef UtU N R n).get a b =
+      (((List.range N).filter (· != n)).map fun m => (UtU.getD m []).get a b).prod := by
+  rw [coef, get_tab _ _ _ ha hb, prodOver_eq]
+
+/-- The coefficient matrix of the second run is `Δ Y Δ` with `Δ = diag(∏_{m≠n} d m ·)`. -/
+theorem coef_scaled {s : List Nat} {R : Nat} {st st' : State α} (hG : GramOK R st) (hG' : GramOK R st')
+    (hU : ShapeOK s R st.U) (hU' : ShapeOK s R st'.U) {d : Nat → Nat → α} (hd : ColScaled d st.U st'.U)
+    (n : Nat) {a b : Nat} (ha : a < R) (hb : b < R) :
+    (coef st'.UtU s.length R n).get a b =
+      dOther d s.length n a * dOther d s.length n b * (coef st.UtU s.length R n).get a b := by
+  rw [coef_get _ _ _ _ ha hb, coef_get _ _ _ _ ha hb]
+  unfold dOther
+  rw [← prod_map_mul', ← prod_map_mul']
+  congr 1
+  refine List.map_congr_left fun m hm => ?_
+  simp only [List.mem_filter, List.mem_range] at hm
+  have hm1 : m < st.U.length := by rw [hU.1]; exact hm.1
+  have hm2 : m < st'.U.length := by rw [hU'.1]; exact hm.1
+  rw [hG.2 m hm1, hG'.2 m hm2, gram_get _ _ ha hb, gram_get _ _ ha hb, (hU.2 m hm.1).1, (hU'.2 m hm.1).1]
+  simp only [sumRange_eq]
+  rw [Finset.mul_sum]
+  refine Finset.sum_congr rfl fun i _ => ?_
+  rw [hd m i a, hd m i b]
+  ring
+
+theorem allZero_tab {o : NumOps α} (ho : o.Lawful) (I R : Nat) (f : Nat → Nat → α) :
+    allZero o (tab I R f) = true ↔ ∀ i < I, ∀ r < R, f i r = 0 := by
+  simp [allZero, tab, List.all_eq_true, ho.isZero_iff]
+
+theorem allZero_coef_iff {o : NumOps α} (ho : o.Lawful) (UtU : List (Mat α)) (N R n : Nat) :
+    allZero o (coef UtU N R n) = true ↔ ∀ a < R, ∀ b < R, (coef UtU N R n).get a b = 0 := by
+  unfold coef
+  rw [allZero_tab ho]
+  constructor
+  · intro h a ha b hb; rw [get_tab _ _ _ ha hb]; exact h a ha b hb
+  · intro h a ha b hb; have := h a ha b hb; rwa [get_tab _ _ _ ha hb] at this
+
+/-- `Y` (an `R × R` matrix) is non-singular, said without matrices: a row vector that `Y` sends to
+zero is zero.  This is what makes the answer of the solver unique. -/
+def LeftInj (Y : Mat α) (R : Nat) : Prop :=
+  ∀ v : Nat → α, (∀ r < R, sumRange R (fun a => v a * Y.get a r) = 0) → ∀ a < R, v a = 0
+
+/-- Row `i` of the solver's answer for the system `(Δ Y Δ, c · B Δ)` is `c · (row i of the answer
+for (Y, B)) · Δ⁻¹` when `Y` is non-singular. -/
+theorem solve_scaled {S : Services α} (hS : SolveContract S) {n R : Nat} {Y Y' B B' A A' : Mat α}
+    (hs : S.solve n Y B = .ok A) (hs' : S.solve n Y' B' = .ok A') (hY : Y.length = R) (hY' : Y'.length = R)
+    {δ : Nat → α} (hδ : ∀ a < R, δ a ≠ 0) {c : α}
+    (hYs : ∀ a < R, ∀ b < R, Y'.get a b = δ a * δ b * Y.get a b) (hinj : LeftInj Y R) (i : Nat)
+    (hB : ∀ r < R, B'.get i r = c * δ r * B.get i r) :
+    ∀ a < R, A'.get i a = c / δ a * A.get i a := by
+  have hv := hinj (fun a => A'.get i a * δ a - c * A.get i a) (fun r hr => by
+    have h1 := hS _ _ _ _ hs' R i r hY' hr
+    have h2 := hS _ _ _ _ hs R i r hY hr
+    simp only [sumRange_eq] at h1 h2 ⊢
+    have h3 : δ r * (∑ a ∈ Finset.range R, A'.get i a * δ a * Y.get a r) = δ r * (c * B.get i r) := by
+      rw [show δ r * (c * B.get i r) = c * δ r * B.get i r by ring, ← hB r hr, ← h1, Finset.mul_sum]
+      refine Finset.sum_congr rfl fun a ha => ?_
+      rw [hYs a (Finset.mem_range.1 ha) r hr]
+      ring
+    have h4 := mul_left_cancel₀ (hδ r hr) h3
+    simp only [sub_mul]
+    rw [Finset.sum_sub_distrib, h4, ← h2, Finset.mul_sum]
+    rw [sub_eq_zero]
+    refine Finset.sum_congr rfl fun a _ => ?_
+    ring)
+  intro a ha
+  have := sub_eq_zero.1 (hv a ha)
+  rw [div_mul_eq_mul_div, eq_div_iff (hδ a ha)]
+  exact this
+
+theorem leftInj_one_by_one {y : α} (hy : y ≠ 0) (Y : Mat α) (h : Y.get 0 0 = y) : LeftInj Y 1 := by
+  intro v hv a ha
+  have := hv 0 (by omega)
+  simp only [sumRange_eq, Finset.sum_range_one, h] at this
+  have ha0 : a = 0 := by omega
+  subst ha0
+  rcases mul_eq_zero.1 this with h0 | h0
+  · exact h0
+  · exact absurd h0 hy
+
+end solve
+
+/-! ## 5. the column weights of the two runs -/
+
+section colweights
+variable {α : Type} [Field α] [LinearOrder α] [IsStrictOrderedRing α]
+
+theorem NumOps.Lawful.sqrt_unique {o : NumOps α} (ho : o.Lawful) {x y : α} (hx : 0 ≤ x) (hy : 0 ≤ y)
+    (h : x * x = y) : o.sqrt y = x := by
+  subst h
+  have h1 := ho.sqrt_mul_self (x * x) hy
+  have h0 := ho.sqrt_nonneg (x * x) hy
+  rcases mul_self_eq_mul_self_iff.1 h1 with e | e
+  · exact e
+  · rw [e] at h0 ⊢
+    linarith
+
+theorem colSum_nonneg (I r : Nat) (A : Mat α) :
+    0 ≤ ((List.range I).map fun i => A.get i r * A.get i r).sum :=
+  List.sum_nonneg (by
+    intro y hy; simp only [List.mem_map] at hy; obtain ⟨i, _, rfl⟩ := hy; exact mul_self_nonneg _)
+
+theorem colWeight_zero (o : NumOps α) (I r : Nat) (A : Mat α) :
+    Gen.colWeight o 0 (col A I r) = o.sqrt (((List.range I).map fun i => A.get i r * A.get i r).sum) := by
+  simp [Gen.colWeight, Gen.firstIteration, Gen.colWeightFirst, col, sumL, List.map_map, Function.comp_def]
+
+theorem colWeight_later_ge {o : NumOps α} (ho : o.Lawful) {it : Nat} (hit : it ≠ 0) (l : List α) :
+    1 ≤ Gen.colWeight o it l := by
+  simp only [Gen.colWeight, Gen.firstIteration, hit, decide_false, Bool.false_eq_true, if_false,
+    Gen.colWeightLater, NumOps.max, ho.ofNat_eq, Nat.cast_one]
+  split
+  · exact le_rfl
+  · rename_i h
+    rw [ho.lt_iff] at h
+    exact not_lt.1 h
+
+/-- What the simulation needs to know about the column scale of the two runs, for both formulas
+(2-norm in pass 0, `max(max|·|, 1)` afterwards): non-negative, zero together, and zero only for a
+zero column. -/
+theorem colWeight_facts {o : NumOps α} (ho : o.Lawful) (it I r : Nat) (A A' : Mat α) (κ : α) (hκ : 0 < κ)
+    (h : ∀ i < I, A'.get i r = κ * A.get i r) :
+    0 ≤ Gen.colWeight o it (col A I r) ∧ 0 ≤ Gen.colWeight o it (col A' I r) ∧
+    (Gen.colWeight o it (col A I r) = 0 ↔ Gen.colWeight o it (col A' I r) = 0) ∧
+    (Gen.colWeight o it (col A I r) = 0 → ∀ i < I, A.get i r = 0) := by
+  by_cases hit : it = 0
+  · subst hit
+    rw [colWeight_zero, colWeight_zero]
+    have hS := colSum_nonneg I r A
+    have hS' : ((List.range I).map fun i => A'.get i r * A'.get i r).sum =
+        κ * κ * ((List.range I).map fun i => A.get i r * A.get i r).sum := by
+      rw [← sum_sq_scale]
+      congr 1
+      refine List.map_congr_left fun i hi => ?_
+      rw [h i (List.mem_range.1 hi)]
+    set T := ((List.range I).map fun i => A.get i r * A.get i r).sum with hT
+    have hw := ho.sqrt_nonneg T hS
+    have hww := ho.sqrt_mul_self T hS
+    have hw' : o.sqrt (((List.range I).map fun i => A'.get i r * A'.get i r).sum) = κ * o.sqrt T := by
+      rw [hS']
+      exact ho.sqrt_unique (mul_nonneg hκ.le hw) (mul_nonneg (mul_self_nonneg κ) hS) (by
+        rw [mul_mul_mul_comm, hww])
+    rw [hw']
+    refine ⟨hw, mul_nonneg hκ.le hw, ?_, ?_⟩
+    · constructor
+      · intro e; rw [e, mul_zero]
+      · intro e
+        rcases mul_eq_zero.1 e with e | e
+        · exact absurd e hκ.ne'
+        · exact e
+    · intro e i hi
+      have hT0 : T = 0 := by rw [← hww, e, mul_zero]
+      exact sum_sq_eq_zero _ (fun i => A.get i r) hT0 i (List.mem_range.2 hi)
+  · have h1 := colWeight_later_ge ho hit (col A I r)
+    have h2 := colWeight_later_ge ho hit (col A' I r)
+    refine ⟨by linarith, by linarith, ?_, ?_⟩
+    · constructor
+      · intro e; linarith
+      · intro e; linarith
+    · intro e; linarith
+
+theorem colWeights_getD (o : NumOps α) (it I R : Nat) (A : Mat α) {r : Nat} (hr : r < R) :
+    (colWeights o it I R A).getD r 0 = Gen.colWeight o it (col A I r) := by
+  simp [colWeights, List.getD_eq_getElem?_getD, hr]
+
+theorem colWeights_all_zero {o : NumOps α} (ho : o.Lawful) (it I R : Nat) (A : Mat α) :
+    (colWeights o it I R A).all o.isZero = true ↔ ∀ r < R, Gen.colWeight o it (col A I r) = 0 := by
+  simp [colWeights, List.all_eq_true, ho.isZero_iff]
+
+theorem scaleCols_get {o : NumOps α} (I R : Nat) (A : Mat α) (w : List α) (i r : Nat) :
+    (scaleCols o I R A w).get i r =
+      if i < I ∧ r < R then (if w.all o.isZero = true then A.get i r else A.get i r / w.getD r 0) else 0 := by
+  unfold scaleCols
+  split
+  · rw [get_tab_ite]
+  · rw [get_tab_ite]
+
+end colweights
+
+/-! ## 6. the simulation relation and the mode update -/
+
+section sim
+variable {α : Type} [Field α] [LinearOrder α] [IsStrictOrderedRing α]
+
+/-- **The simulation relation** between a state `st` of the run on `X` and a state `st'` of the run
+on `c • X`: the factor matrices agree up to positive per-column scalings `d m r` whose product with
+the weights accounts for the factor `c` (`weights'[r] · ∏ₘ d m r = c · weights[r]`), the stored Gram
+matrices are those of the factors, the fits, the pass counters and the stop flags are equal and the
+residual norm scales by `c`. -/
+structure Sim (c : α) (s : List Nat) (R : Nat) (st st' : State α) : Prop where
+  shape : ShapeOK s R st.U
+  shape' : ShapeOK s R st'.U
+  gram : GramOK R st
+  gram' : GramOK R st'
+  scaled : ∃ d : Nat → Nat → α, (∀ m r, 0 < d m r) ∧ ColScaled d st.U st'.U ∧
+    ∀ r < R, st'.weights.getD r 0 * dAll d s.length r = c * st.weights.getD r 0
+  wlen : st'.weights.length = st.weights.length
+  fit : st'.fit = st.fit
+  normresidual : st'.normresidual = c * st.normresidual
+  iteration : st'.iteration = st.iteration
+  stop : st'.stop = st.stop
+
+theorem dOther_pos {d : Nat → Nat → α} (hd : ∀ m r, 0 < d m r) (N n r : Nat) : 0 < dOther d N n r := by
+  unfold dOther
+  apply List.prod_pos
+  intro x hx
+  simp only [List.mem_map] at hx
+  obtain ⟨m, _, rfl⟩ := hx
+  exact hd m r
+
+/-- The coefficient matrix `Y` of a mode update is non-singular unless the all-zero guard fires. -/
+def RegularY (o : NumOps α) (Y : Mat α) (R : Nat) : Prop := allZero o Y = false → LeftInj Y R
+
+/-- Rows of the (guarded) solver answers of the two runs: `A0' = c · A0 · Δ⁻¹`. -/
+theorem solveStep_sim {D D' : Data α} {S : Services α} {o : NumOps α} {X : List Nat → α} {c : α}
+    (ho : o.Lawful) (hS : SolveContract S) (hD : DataLaws D X) (hD' : DataLaws D' (fun j => c * X j))
+    (hs : D'.shape = D.shape) {rank n : Nat} (hn : n < D.shape.length) {st st' : State α}
+    (hU : ShapeOK D.shape rank st.U) (hU' : ShapeOK D.shape rank st'.U)
+    (hG : GramOK rank st) (hG' : GramOK rank st')
+    {d : Nat → Nat → α} (hdpos : ∀ m r, 0 < d m r) (hd : ColScaled d st.U st'.U)
+    (hreg : RegularY o (coef st.UtU D.shape.length rank n) rank) {A0 A0' : Mat α}
+    (h : solveStep S o (D.shape.getD n 0) rank n (coef st.UtU D.shape.length rank n) (D.mttkrp st.U n) = .ok A0)
+    (h' : solveStep S o (D.shape.getD n 0) rank n (coef st'.UtU D.shape.length rank n) (D'.mttkrp st'.U n) = .ok A0') :
+    ∀ i < D.shape.getD n 0, ∀ a < rank,
+      A0'.get i a = c / dOther d D.shape.length n a * A0.get i a := by
+  have hδ : ∀ a, 0 < dOther d D.shape.length n a := fun a => dOther_pos hdpos _ _ _
+  have hYs : ∀ a < rank, ∀ b < rank, (coef st'.UtU D.shape.length rank n).get a b =
+      dOther d D.shape.length n a * dOther d D.shape.length n b * (coef st.UtU D.shape.length rank n).get a b :=
+    fun a ha b hb => coef_scaled hG hG' hU hU' hd n ha hb
+  have hzz : allZero o (coef st'.UtU D.shape.length rank n) = true ↔
+      allZero o (coef st.UtU D.shape.length rank n) = true := by
+    rw [allZero_coef_iff ho, allZero_coef_iff ho]
+    constructor
+    · intro hz a ha b hb
+      have := hz a ha b hb
+      rw [hYs a ha b hb] at this
+      rcases mul_eq_zero.1 this with e | e
+      · exact absurd e (mul_pos (hδ a) (hδ b)).ne'
+      · exact e
+    · intro hz a ha b hb
+      rw [hYs a ha b hb, hz a ha b hb, mul_zero]
+  unfold solveStep at h h'
+  by_cases hz : allZero o (coef st.UtU D.shape.length rank n) = true
+  · rw [if_pos hz] at h
+    rw [if_pos (hzz.2 hz)] at h'
+    simp only [pure, Except.pure, Except.ok.injEq] at h h'
+    subst h; subst h'
+    intro i hi a ha
+    rw [get_tab _ _ _ hi ha, mul_zero]
+  · rw [if_neg hz] at h
+    rw [if_neg (fun e => hz (hzz.1 e))] at h'
+    intro i hi
+    exact solve_scaled hS h h' (length_coef _ _ _ _) (length_coef _ _ _ _) (fun a _ => (hδ a).ne') hYs
+      (hreg (by simpa using hz)) i (fun r hr => mttkrp_scaled hD hD' hs hU hU' hd hn hi hr)
+
+/-- **One mode update preserves the simulation.** -/
+theorem modeUpdate_sim {D D' : Data α} {S : Services α} {o : NumOps α} {X : List Nat → α} {c : α}
+    (ho : o.Lawful) (hS : SolveContract S) (hc : 0 < c) (hD : DataLaws D X)
+    (hD' : DataLaws D' (fun j => c * X j)) (hs : D'.shape = D.shape) {rank it last n : Nat}
+    (hn : n < D.shape.length) {st st' st1 st1' : State α} (hsim : Sim c D.shape rank st st')
+    (hreg : RegularY o (coef st.UtU D.shape.length rank n) rank)
+    (h : modeUpdate D S o rank it last n st = .ok st1)
+    (h' : modeUpdate D' S o rank it last n st' = .ok st1') :
+    Sim c D.shape rank st1 st1' ∧ st1.weights.length = rank := by
+  have hsh := modeUpdate_shape h hsim.shape
+  have hsh' := modeUpdate_shape h' (by rw [hs]; exact hsim.shape')
+  rw [hs] at hsh'
+  have hg := gramOK_modeUpdate h hsim.gram
+  have hg' := gramOK_modeUpdate h' hsim.gram'
+  obtain ⟨A0, hA0, rfl⟩ := modeUpdate_ok h
+  obtain ⟨A0', hA0', rfl⟩ := modeUpdate_ok h'
+  rw [hs] at hA0' hg' hsh' ⊢
+  obtain ⟨d, hdpos, hd, _⟩ := hsim.scaled
+  have key := solveStep_sim ho hS hD hD' hs hn hsim.shape hsim.shape' hsim.gram hsim.gram' hdpos hd hreg hA0 hA0'
+  have hδ : ∀ a, 0 < dOther d D.shape.length n a := fun a => dOther_pos hdpos _ _ _
+  have hκ : ∀ a, 0 < c / dOther d D.shape.length n a := fun a => div_pos hc (hδ a)
+  have facts := fun r (hr : r < rank) => colWeight_facts ho it (D.shape.getD n 0) r A0 A0'
+    (c / dOther d D.shape.length n r) (hκ r) (fun i hi => key i hi r hr)
+  have hallz : (colWeights o it (D.shape.getD n 0) rank A0').all o.isZero = true ↔
+      (colWeights o it (D.shape.getD n 0) rank A0).all o.isZero = true := by
+    rw [colWeights_all_zero ho, colWeights_all_zero ho]
+    exact ⟨fun hz r hr => (facts r hr).2.2.1.2 (hz r hr), fun hz r hr => (facts r hr).2.2.1.1 (hz r hr)⟩
+  have hnU : n < st.U.length := by rw [hsim.shape.1]; exact hn
+  have hnU' : n < st'.U.length := by rw [hsim.shape'.1]; exact hn
+  refine ⟨⟨hsh.1, hsh'.1, hg, hg', ?_, by rw [hsh.2, hsh'.2], hsim.fit, hsim.normresidual, hsim.iteration,
+    hsim.stop⟩, hsh.2⟩
+  obtain ⟨d1, hd1⟩ : ∃ d1 : Nat → Nat → α, ∀ m r, d1 m r = if m = n then
+      (if r < rank then
+        (if Gen.colWeight o it (col A0 (D.shape.getD n 0) r) = 0 then 1
+         else c / dOther d D.shape.length n r * Gen.colWeight o it (col A0 (D.shape.getD n 0) r) /
+                Gen.colWeight o it (col A0' (D.shape.getD n 0) r))
+       else 1)
+    else d m r := ⟨_, fun _ _ => rfl⟩
+  refine ⟨d1, ?_, ?_, ?_⟩
+  · -- positivity
+    intro m r
+    rw [hd1]
+    by_cases hmn : m = n
+    · rw [if_pos hmn]
+      by_cases hr : r < rank
+      · rw [if_pos hr]
+        obtain ⟨f1, f2, f3, _⟩ := facts r hr
+        by_cases hw : Gen.colWeight o it (col A0 (D.shape.getD n 0) r) = 0
+        · rw [if_pos hw]; exact zero_lt_one
+        · rw [if_neg hw]
+          have hw' : Gen.colWeight o it (col A0' (D.shape.getD n 0) r) ≠ 0 := fun e => hw (f3.2 e)
+          exact div_pos (mul_pos (hκ r) (lt_of_le_of_ne f1 (Ne.symm hw))) (lt_of_le_of_ne f2 (Ne.symm hw'))
+      · rw [if_neg hr]; exact zero_lt_one
+    · rw [if_neg hmn]; exact hdpos m r
+  · -- the factors
+    intro m i r
+    by_cases hmn : m = n
+    · subst hmn
+      rw [applyUpdate_U, applyUpdate_U, getD_set_eq _ _ _ _ hnU, getD_set_eq _ _ _ _ hnU', scaleCols_get,
+        scaleCols_get, hd1, if_pos rfl]
+      by_cases hir : i < D.shape.getD m 0 ∧ r < rank
+      · rw [if_pos hir, if_pos hir, if_pos hir.2]
+        obtain ⟨f1, f2, f3, f4⟩ := facts r hir.2
+        by_cases hall : (colWeights o it (D.shape.getD m 0) rank A0).all o.isZero = true
+        · rw [if_pos hall, if_pos (hallz.2 hall), key i hir.1 r hir.2]
+          have hw := (colWeights_all_zero ho _ _ _ _).1 hall r hir.2
+          rw [f4 hw i hir.1, mul_zero, zero_mul]
+        · rw [if_neg hall, if_neg (fun e => hall (hallz.1 e)), colWeights_getD _ _ _ _ _ hir.2,
+            colWeights_getD _ _ _ _ _ hir.2, key i hir.1 r hir.2]
+          by_cases hw : Gen.colWeight o it (col A0 (D.shape.getD m 0) r) = 0
+          · rw [if_pos hw, hw, f3.1 hw, div_zero, div_zero, zero_mul]
+          · rw [if_neg hw]
+            have hw' : Gen.colWeight o it (col A0' (D.shape.getD m 0) r) ≠ 0 := fun e => hw (f3.2 e)
+            field_simp
+      · rw [if_neg hir, if_neg hir, zero_mul]
+    · rw [applyUpdate_U, applyUpdate_U, getD_set_ne _ _ _ (Ne.symm hmn), getD_set_ne _ _ _ (Ne.symm hmn),
+        hd1, if_neg hmn]
+      exact hd m i r
+  · -- the weights
+    intro r hr
+    rw [applyUpdate_weights, applyUpdate_weights, colWeights_getD _ _ _ _ _ hr, colWeights_getD _ _ _ _ _ hr,
+      dAll_split _ hn r, dOther_congr d d1 _ n r (fun m hm => by rw [hd1, if_neg hm]), hd1, if_pos rfl, if_pos hr]
+    obtain ⟨f1, f2, f3, f4⟩ := facts r hr
+    by_cases hw : Gen.colWeight o it (col A0 (D.shape.getD n 0) r) = 0
+    · rw [if_pos hw, hw, f3.1 hw, zero_mul, mul_zero]
+    · rw [if_neg hw]
+      have hw' : Gen.colWeight o it (col A0' (D.shape.getD n 0) r) ≠ 0 := fun e => hw (f3.2 e)
+      have hδ' := (hδ r).ne'
+      field_simp
+
+end sim
+
+/-! ## 7. the model tensor, a sweep, a pass -/
+
+section pass
+variable {α : Type} [Field α] [LinearOrder α] [IsStrictOrderedRing α]
+
+/-- Related states denote model tensors that differ by the factor `c`. -/
+theorem Sim.tensor {c : α} {s : List Nat} {R : Nat} {st st' : State α} (h : Sim c s R st st')
+    (hw : st.weights.length = R) (j : List Nat) (hj : j.length = s.length) :
+    Ktensor.get ⟨st'.weights, st'.U⟩ j = c * Ktensor.get ⟨st.weights, st.U⟩ j := by
+  obtain ⟨d, _, hd, hwt⟩ := h.scaled
+  rw [ktensor_get_eq, ktensor_get_eq, h.wlen, hw, Finset.mul_sum]
+  refine Finset.sum_congr rfl fun r hr => ?_
+  have hl : st'.U.length = st.U.length := by rw [h.shape.1, h.shape'.1]
+  rw [hd.comp hl j (by rw [hj, h.shape.1]) r, h.shape.1]
+  have := hwt r (Finset.mem_range.1 hr)
+  calc st'.weights.getD r 0 * (compOf st.U r j * dAll d s.length r)
+      = (st'.weights.getD r 0 * dAll d s.length r) * compOf st.U r j := by ring
+    _ = c * (st.weights.getD r 0 * compOf st.U r j) := by rw [this]; ring
+
+theorem ip_scale_both (s : List Nat) (f f' : List Nat → α) (c : α)
+    (h : ∀ j, j.length = s.length → f' j = c * f j) : ip s f' f' = c * c * ip s f f := by
+  unfold ip
+  rw [← List.sum_map_mul_left]
+  congr 1
+  refine List.map_congr_left fun j hj => ?_
+  rw [h j (mem_allSubs.1 hj).length_eq]
+  ring
+
+theorem ip_scale_data_model (s : List Nat) (X f f' : List Nat → α) (c : α)
+    (h : ∀ j, j.length = s.length → f' j = c * f j) : ip s (fun j => c * X j) f' = c * c * ip s X f := by
+  rw [ip_smul_left, ip_congr s X f' (fun j => c * f j) h, ip_smul_right, mul_assoc]
+
+theorem knorm_nonneg {o : NumOps α} (ho : o.Lawful) (w : List α) (U : List (Mat α)) : 0 ≤ knorm o w U :=
+  (ho.sqrt_abs_sq _).1
+
+/-- `ktensor.norm()` of the model of the second run is `c` times that of the first. -/
+theorem knorm_scaled {o : NumOps α} (ho : o.Lawful) {c : α} (hc : 0 < c) (s : List Nat) (w w' : List α)
+    (U U' : List (Mat α)) (hU : ShapeOK s w.length U) (hU' : ShapeOK s w'.length U')
+    (h : ∀ j, j.length = s.length → Ktensor.get ⟨w', U'⟩ j = c * Ktensor.get ⟨w, U⟩ j) :
+    knorm o w' U' = c * knorm o w U := by
+  have h1 := knorm_mul_self ho (knormLaw s) w U hU
+  have h2 := knorm_mul_self ho (knormLaw s) w' U' hU'
+  rw [ip_scale_both s _ _ c h, ← h1] at h2
+  have e : knorm o w' U' * knorm o w' U' = (c * knorm o w U) * (c * knorm o w U) := by rw [h2]; ring
+  rcases mul_self_eq_mul_self_iff.1 e with e | e
+  · exact e
+  · have n1 := knorm_nonneg ho w' U'
+    have n2 := mul_nonneg hc.le (knorm_nonneg ho w U)
+    rw [e] at n1 ⊢
+    linarith
+
+/-- The reported pair `(normresidual, fit)` for data, model norm and inner product scaled by
+`c`, `c`, `c²`: the residual scales by `c`, the fit is unchanged (data of non-zero norm). -/
+theorem report_scale {o : NumOps α} (ho : o.Lawful) {c : α} (hc : 0 < c) (nx nm ipr : α) (hnz : nx ≠ 0) :
+    (report o (c * nx) (c * nm) (c * c * ipr)).1 = c * (report o nx nm ipr).1 ∧
+    (report o (c * nx) (c * nm) (c * c * ipr)).2 = (report o nx nm ipr).2 := by
+  have hb : Gen.branchZero o nx = false := by
+    rw [Gen.branchZero, Bool.eq_false_iff, Ne, ho.isZero_iff]; exact hnz
+  have hb' : Gen.branchZero o (c * nx) = false := by
+    rw [Gen.branchZero, Bool.eq_false_iff, Ne, ho.isZero_iff]; exact mul_ne_zero hc.ne' hnz
+  simp only [report, hb, hb', Bool.false_eq_true, if_false]
+  have hnr : Gen.normresidual o (c * nx) (c * nm) (c * c * ipr) = c * Gen.normresidual o nx nm ipr := by
+    unfold Gen.normresidual
+    rw [ho.abs_eq, ho.abs_eq]
+    have hq := ho.sqrt_mul_self |nx * nx + nm * nm - o.ofNat 2 * ipr| (abs_nonneg _)
+    have hq0 := ho.sqrt_nonneg |nx * nx + nm * nm - o.ofNat 2 * ipr| (abs_nonneg _)
+    apply ho.sqrt_unique (mul_nonneg hc.le hq0) (abs_nonneg _)
+    rw [mul_mul_mul_comm, hq]
+    have e : c * nx * (c * nx) + c * nm * (c * nm) - o.ofNat 2 * (c * c * ipr) =
+        c * c * (nx * nx + nm * nm - o.ofNat 2 * ipr) := by ring
+    rw [e, abs_mul, abs_mul_self]
+  refine ⟨hnr, ?_⟩
+  rw [hnr]
+  unfold Gen.fit
+  rw [mul_div_mul_left _ _ hc.ne']
+
+/-- Every coefficient matrix met during the sweep of the FIRST run (data `X`) is zero or
+non-singular.  (For rank one this always holds.) -/
+def RegularSweep (D : Data α) (S : Services α) (o : NumOps α) (rank it last : Nat) :
+    List Nat → State α → Prop
+  | [], _ => True
+  | n :: rest, st => RegularY o (coef st.UtU D.shape.length rank n) rank ∧
+      ∀ st1, modeUpdate D S o rank it last n st = .ok st1 → RegularSweep D S o rank it last rest st1
+
+/-- **A sweep over the modes preserves the simulation.** -/
+theorem sweep_sim {D D' : Data α} {S : Services α} {o : NumOps α} {X : List Nat → α} {c : α}
+    (ho : o.Lawful) (hS : SolveContract S) (hc : 0 < c) (hD : DataLaws D X)
+    (hD' : DataLaws D' (fun j => c * X j)) (hs : D'.shape = D.shape) {rank it last : Nat}
+    (dims : List Nat) (hdims : ∀ n ∈ dims, n < D.shape.length) {st st' st1 st1' : State α}
+    (hsim : Sim c D.shape rank st st') (hreg : RegularSweep D S o rank it last dims st)
+    (h : dims.foldlM (fun s n => modeUpdate D S o rank it last n s) st = .ok st1)
+    (h' : dims.foldlM (fun s n => modeUpdate D' S o rank it last n s) st' = .ok st1') :
+    Sim c D.shape rank st1 st1' ∧ (dims ≠ [] → st1.weights.length = rank) := by
+  induction dims generalizing st st' with
+  | nil =>
+    simp [List.foldlM] at h h'
+    cases h; cases h'
+    exact ⟨hsim, fun e => absurd rfl e⟩
+  | cons n rest ih =>
+    rw [List.foldlM_cons] at h h'
+    cases hm : modeUpdate D S o rank it last n st with
+    | error e => rw [hm] at h; cases h
+    | ok s2 =>
+      cases hm' : modeUpdate D' S o rank it last n st' with
+      | error e => rw [hm'] at h'; cases h'
+      | ok s2' =>
+        rw [hm] at h; rw [hm'] at h'
+        have hstep := modeUpdate_sim ho hS hc hD hD' hs (hdims n (List.mem_cons_self ..)) hsim hreg.1 hm hm'
+        have hrest := ih (fun m hm => hdims m (List.mem_cons_of_mem _ hm)) hstep.1 (hreg.2 s2 hm) h h'
+        refine ⟨hrest.1, fun _ => ?_⟩
+        by_cases hr : rest = []
+        · subst hr
+          simp [List.foldlM] at h
+          cases h
+          exact hstep.2
+        · exact hrest.2 hr
+
+theorem getLastD_mem {l : List Nat} (hne : l ≠ []) : l.getLastD 0 ∈ l := by
+  rw [List.getLastD_eq_getLast?, List.getLast?_eq_some_getLast hne]
+  exact List.getLast_mem hne
+
+/-- **One pass (`iterStep`) preserves the simulation**: related states go to related states — in
+particular the fit after the pass is the same number in both runs, the residual norm scales by `c`
+and the stop test gives the same answer. -/
+theorem iterStep_sim {D D' : Data α} {S : Services α} {o : NumOps α} {X : List Nat → α} {c : α}
+    (ho : o.Lawful) (hS : SolveContract S) (hc : 0 < c) (hD : DataLaws D X)
+    (hD' : DataLaws D' (fun j => c * X j)) (hs : D'.shape = D.shape)
+    (hnorm : D'.norm = c * D.norm) (hnz : D.norm ≠ 0) {rank it : Nat} {stoptol : α}
+    {dims : List Nat} (hne : dims ≠ []) (hdims : ∀ n ∈ dims, n < D.shape.length) {st st' st2 st2' : State α}
+    (hsim : Sim c D.shape rank st st') (hreg : RegularSweep D S o rank it (dims.getLastD 0) dims st)
+    (h : iterStep D S o rank stoptol dims it st = .ok st2)
+    (h' : iterStep D' S o rank stoptol dims it st' = .ok st2') :
+    Sim c D.shape rank st2 st2' ∧ st2.weights.length = rank ∧ st2.iteration = it := by
+  obtain ⟨st1, hf, rfl⟩ := iterStep_ok h
+  obtain ⟨st1', hf', rfl⟩ := iterStep_ok h'
+  obtain ⟨hsim1, hw1⟩ := sweep_sim ho hS hc hD hD' hs dims hdims hsim hreg hf hf'
+  have hw := hw1 hne
+  have hw' : st1'.weights.length = rank := by rw [hsim1.wlen]; exact hw
+  have hlast : dims.getLastD 0 < D.shape.length := hdims _ (getLastD_mem hne)
+  have hten := fun j hj => hsim1.tensor hw j hj
+  have hip := sweep_iprod hD dims hne hlast hsim.shape hf
+  have hip' := sweep_iprod hD' dims hne (by rw [hs]; exact hlast) (by rw [hs]; exact hsim.shape') hf'
+  rw [hs, ip_scale_data_model D.shape X _ _ c hten] at hip'
+  have hkn := knorm_scaled ho hc D.shape st1.weights st1'.weights st1.U st1'.U
+    (by rw [hw]; exact hsim1.shape) (by rw [hw']; exact hsim1.shape') hten
+  have hrep : (passReport D' o rank dims st1').1 = c * (passReport D o rank dims st1).1 ∧
+      (passReport D' o rank dims st1').2 = (passReport D o rank dims st1).2 := by
+    unfold passReport
+    rw [hs, hip', hkn, hnorm, hip]
+    exact report_scale ho hc _ _ _ hnz
+  refine ⟨⟨hsim1.shape, hsim1.shape', hsim1.gram, hsim1.gram', hsim1.scaled, hsim1.wlen, ?_, ?_, rfl, ?_⟩, hw, rfl⟩
+  · exact hrep.2
+  · exact hrep.1
+  · show Gen.stopTest o it (Gen.fitchange o st'.fit (passReport D' o rank dims st1').2) stoptol =
+      Gen.stopTest o it (Gen.fitchange o st.fit (passReport D o rank dims st1).2) stoptol
+    rw [hrep.2, hsim.fit]
+
+end pass
+
+/-! ## 8. the loop -/
+
+section loop
+variable {α : Type} [Field α] [LinearOrder α] [IsStrictOrderedRing α]
+
+/-- Every coefficient matrix met during the FIRST run (data `X`), from pass `k` on with `fuel`
+passes left, is zero or non-singular. -/
+def RegularLoop (D : Data α) (S : Services α) (o : NumOps α) (rank : Nat) (stoptol : α) (dims : List Nat) :
+    Nat → Nat → State α → Prop
+  | 0, _, _ => True
+  | fuel + 1, k, st => RegularSweep D S o rank k (dims.getLastD 0) dims st ∧
+      ∀ st1, iterStep D S o rank stoptol dims k st = .ok st1 → st1.stop = false →
+        RegularLoop D S o rank stoptol dims fuel (k + 1) st1
+
+/-- **The main loop preserves the simulation**: started in related states, the two runs execute the
+same number of passes (their stop tests agree pass by pass) and end in related states. -/
+theorem loop_sim {D D' : Data α} {S : Services α} {o : NumOps α} {X : List Nat → α} {c : α}
+    (ho : o.Lawful) (hS : SolveContract S) (hc : 0 < c) (hD : DataLaws D X)
+    (hD' : DataLaws D' (fun j => c * X j)) (hs : D'.shape = D.shape)
+    (hnorm : D'.norm = c * D.norm) (hnz : D.norm ≠ 0) {rank : Nat} {stoptol : α}
+    {dims : List Nat} (hne : dims ≠ []) (hdims : ∀ n ∈ dims, n < D.shape.length) :
+    ∀ (fuel k : Nat) {st st' stF stF' : State α}, Sim c D.shape rank st st' →
+      RegularLoop D S o rank stoptol dims fuel k st →
+      loopFrom (iterStep D S o rank stoptol dims) fuel k st = .ok stF →
+      loopFrom (iterStep D' S o rank stoptol dims) fuel k st' = .ok stF' →
+      Sim c D.shape rank stF stF' ∧ (0 < fuel → stF.weights.length = rank) := by
+  intro fuel
+  induction fuel with
+  | zero =>
+    intro k st st' stF stF' hsim _ h h'
+    simp only [loopFrom, Except.ok.injEq] at h h'
+    subst h; subst h'
+    exact ⟨hsim, fun h => absurd h (Nat.lt_irrefl 0)⟩
+  | succ fuel ih =>
+    intro k st st' stF stF' hsim hreg h h'
+    unfold loopFrom at h h'
+    cases hs1 : iterStep D S o rank stoptol dims k st with
+    | error e => rw [hs1] at h; cases h
+    | ok s1 =>
+      cases hs1' : iterStep D' S o rank stoptol dims k st' with
+      | error e => rw [hs1'] at h'; cases h'
+      | ok s1' =>
+        rw [hs1] at h; rw [hs1'] at h'
+        have hstep := iterStep_sim ho hS hc hD hD' hs hnorm hnz hne hdims hsim hreg.1 hs1 hs1'
+        have hstopeq := hstep.1.stop
+        by_cases hstop : s1.stop = true
+        · have hstop' : s1'.stop = true := by rw [hstopeq]; exact hstop
+          simp only [bind, Except.bind, hstop, hstop', if_true, Except.ok.injEq] at h h'
+          subst h; subst h'
+          exact ⟨hstep.1, fun _ => hstep.2.1⟩
+        · have hstop' : ¬ s1'.stop = true := by rw [hstopeq]; exact hstop
+          simp only [bind, Except.bind, hstop, hstop', if_false] at h h'
+          have hrec := ih (k + 1) hstep.1 (hreg.2 s1 hs1 (by simpa using hstop)) h h'
+          refine ⟨hrec.1, fun _ => ?_⟩
+          by_cases hf : fuel = 0
+          · subst hf
+            simp [loopFrom] at h
+            subst h
+            exact hstep.2.1
+          · exact hrec.2 (Nat.pos_of_ne_zero hf)
+
+/-- The two runs start in related states (same start, all scalings one). -/
+theorem sim_init {c : α} {D D' : Data α} (hs : D'.shape = D.shape) {rank : Nat} (dims : List Nat)
+    {K : Ktensor α} (hK : ShapeOK D.shape rank K.factors) :
+    Sim c D.shape rank (initState D rank dims K) (initState D' rank dims K) := by
+  refine ⟨hK, hK, gramOK_init D rank dims K, gramOK_init D' rank dims K,
+    ⟨fun _ _ => 1, fun _ _ => zero_lt_one, fun m i r => by simp [initState], fun r _ => by simp [initState]⟩,
+    rfl, rfl, by simp [initState], rfl, rfl⟩
+
+end loop
 
 end Pyttb.CpAls
